@@ -3,6 +3,10 @@ import RTV.Lemmas.Seq
 import RTV.Lemmas.Guid
 import RTV.Lemmas.Ip6
 import RTV.Lemmas.Tags
+import RTV.Lemmas.UrlDec0
+import RTV.Lemmas.UrlDec1
+import RTV.Lemmas.UrlDec2
+import RTV.Lemmas.UrlDec3
 /-!
 # C13 — IP addresses, GUIDs and other sequence entities: sound and complete recognition
 
@@ -166,10 +170,7 @@ theorem drop_zeros_group_value (B : Nat) (v : Nat → Nat) (hv : v 48 = 0) (g : 
   ⟨normNumber_posVal B v hv g, normNumber_canon g⟩
 
 /-! ### hashtags, mentions, e-mail addresses (`BaseHashtag.HashtagRegex`, `BaseMention.MentionRegex`,
-`BaseEmail.EmailRegex`; all compiled with IGNORECASE | DOTALL).  URL and phone-number patterns are translated and
-validated by the regex correspondence, but have no language theorem: `BaseURLExtractor._is_valid_match` reads the
-named groups `Tld` / `IPurl`, and the matcher of this layer has no captures; the phone extractor is a cascade of ten
-patterns with score-based post-filters — both stay correspondence-only. -/
+`BaseEmail.EmailRegex`; all compiled with IGNORECASE | DOTALL). -/
 
 /-- C13 (hashtag, what a match is): from `i` the regex matches `#` + any non-empty prefix of the run of tag
 characters (`[a-zA-Z0-9_]` and `regex`'s IGNORECASE variants İ ı ſ K), provided `i` is at the start or after `\s`. -/
@@ -238,6 +239,44 @@ theorem email_lang {T : Tables} (hd0 : T.digit 0 = false) (s : Array Nat) (i j :
   unfold Matches; rw [gen_email]; exact emailRE_lang hd0 i j
 
 example : RTV.Gen.reTables.digit 0 = false := by decide +kernel
+
+/-! ### URLs (`BaseURLExtractor`: `BaseURL.IpUrlRegex`, `UrlRegex`, `UrlRegex2`, the `Tld` group checked against
+`BaseURL.TldList` through the `StringMatcher` model of C16, the ambiguous-time-term rejection) -/
+
+/-- C13 (URL, soundness, universal): for any regexes, TLD list and text, every entity `BaseURLExtractor.extract`
+reports has exactly the span of a match that passed `_is_valid_match` — an IP-URL match, or a match of
+`UrlRegex` / `UrlRegex2` whose `Tld` group is a listed TLD — and is not an ambiguous time term such as `7.am`. -/
+theorem url_reported_valid (E : RTV.Url.UrlEnv) (s : List Nat) (ers : List ER) (h : RTV.Url.urlExtract E s = some ers) :
+    ∀ r ∈ ers, ∃ b, r.len = b - r.start ∧ r.data = "Url" ∧ RTV.Url.Origin E s r.start b :=
+  RTV.Url.url_reported_valid E s ers h
+
+/-- C13 (URL, the explicit grammar `scheme hostpre dom '.' tld tail` of harness/lib/urlgrammar.py, which the pipeline
+generates from): for every string of the covering family (every scheme × host prefix × tail, every domain × TLD,
+every TLD × tail; alone and in carrier sentences) `recognize_url` as modelled — preprocessing, the three regenerated
+regexes, TLD check, sweep, parser — reports exactly one entity: the URL as a whole, at its place, value = text.
+(Kernel evaluation on the regenerated data; the full 1080-string language runs through the implementation in the
+pipeline of the correspondence.) -/
+theorem url_grammar_recognised :
+    ∀ c ∈ RTV.Gen.urlFamily0 ++ RTV.Gen.urlFamily1 ++ RTV.Gen.urlFamily2 ++ RTV.Gen.urlFamily3,
+      urlModelRun genSeqEnv c.1 =
+        [(ofString "url", c.2.1, (c.2.1 : Int) + c.2.2.length - 1, c.2.2, c.2.2)] := by
+  intro c hc
+  have h0 : urlOK genSeqEnv RTV.Gen.urlFamily0 = true := by rw [← fastSeqEnv_eq]; exact url_family0_fast
+  have h1 : urlOK genSeqEnv RTV.Gen.urlFamily1 = true := by rw [← fastSeqEnv_eq]; exact url_family1_fast
+  have h2 : urlOK genSeqEnv RTV.Gen.urlFamily2 = true := by rw [← fastSeqEnv_eq]; exact url_family2_fast
+  have h3 : urlOK genSeqEnv RTV.Gen.urlFamily3 = true := by rw [← fastSeqEnv_eq]; exact url_family3_fast
+  unfold urlOK at h0 h1 h2 h3
+  simp only [List.mem_append] at hc
+  rcases hc with ((hc | hc) | hc) | hc
+  · simpa using List.all_eq_true.1 h0 c hc
+  · simpa using List.all_eq_true.1 h1 c hc
+  · simpa using List.all_eq_true.1 h2 c hc
+  · simpa using List.all_eq_true.1 h3 c hc
+
+set_option maxRecDepth 100000 in
+theorem url_family_size :
+    RTV.Gen.urlFamily0.length + RTV.Gen.urlFamily1.length + RTV.Gen.urlFamily2.length +
+      RTV.Gen.urlFamily3.length ≥ 100 := by decide +kernel
 
 /-! ### `drop_leading_zeros` -/
 
